@@ -866,6 +866,96 @@ async fn test_multipart_unknown_upload() -> Result<()> {
 
 #[tokio::test]
 #[tracing::instrument]
+async fn test_multipart_bound_to_key() -> Result<()> {
+    use aws_sdk_s3::error::ProvideErrorMetadata;
+
+    let _guard = serial().await;
+
+    let c = Client::new(config());
+
+    let bucket = format!("test-multipart-bound-{}", Uuid::new_v4());
+    let bucket = bucket.as_str();
+    create_bucket(&c, bucket).await?;
+    let other_bucket = format!("test-multipart-bound-other-{}", Uuid::new_v4());
+    let other_bucket = other_bucket.as_str();
+    create_bucket(&c, other_bucket).await?;
+
+    let key = "sample.txt";
+    let ans = c.create_multipart_upload().bucket(bucket).key(key).send().await?;
+    let upload_id = ans.upload_id.unwrap();
+    let upload_id = upload_id.as_str();
+
+    // the upload exists under the bucket and the key it was created for, nowhere else
+    for (b, k) in [(bucket, "other.txt"), (other_bucket, key)] {
+        let err = c
+            .upload_part()
+            .bucket(b)
+            .key(k)
+            .upload_id(upload_id)
+            .body(ByteStream::from_static(b"hello"))
+            .part_number(1)
+            .send()
+            .await
+            .unwrap_err();
+        assert_eq!(err.code(), Some("NoSuchUpload"));
+
+        let err = c.list_parts().bucket(b).key(k).upload_id(upload_id).send().await.unwrap_err();
+        assert_eq!(err.code(), Some("NoSuchUpload"));
+
+        let part = CompletedPart::builder().part_number(1).build();
+        let upload = CompletedMultipartUpload::builder().parts(part).build();
+        let err = c
+            .complete_multipart_upload()
+            .bucket(b)
+            .key(k)
+            .upload_id(upload_id)
+            .multipart_upload(upload)
+            .send()
+            .await
+            .unwrap_err();
+        assert_eq!(err.code(), Some("NoSuchUpload"));
+
+        let err = c
+            .abort_multipart_upload()
+            .bucket(b)
+            .key(k)
+            .upload_id(upload_id)
+            .send()
+            .await
+            .unwrap_err();
+        assert_eq!(err.code(), Some("NoSuchUpload"));
+    }
+
+    // it is still there
+    {
+        c.upload_part()
+            .bucket(bucket)
+            .key(key)
+            .upload_id(upload_id)
+            .body(ByteStream::from_static(b"hello"))
+            .part_number(1)
+            .send()
+            .await?;
+
+        let ans = c.list_parts().bucket(bucket).key(key).upload_id(upload_id).send().await?;
+        assert_eq!(ans.parts().len(), 1);
+
+        c.abort_multipart_upload()
+            .bucket(bucket)
+            .key(key)
+            .upload_id(upload_id)
+            .send()
+            .await?;
+    }
+
+    delete_bucket(&c, other_bucket).await?;
+    delete_bucket(&c, bucket).await?;
+
+    Ok(())
+}
+
+#[tokio::test]
+#[tracing::instrument]
 async fn test_upload_part_copy() -> Result<()> {
     let _guard = serial().await;
 
